@@ -189,6 +189,25 @@ def impl(line: str) -> str:
                 f"limits={b(n.is_within_resource_limits)} sane={b(n.is_sane)} dup={b(n.has_duplicate_keys)}")
     if op == "str":
         return "ok " + str(from_tokens(t[1], t[2:]))
+    if op == "sat":
+        n = from_tokens(t[1], t[7:])
+        sigs = {} if t[2] == "-" else {common.unhx(k): common.unhx(v) for k, v in (e.split(":") for e in t[2].split(","))}
+        maps = {h: {} for h in HASHES}
+        if t[3] != "-":
+            for e in t[3].split(","):
+                h, d, pr = e.split(":")
+                maps[h][common.unhx(d)] = common.unhx(pr)
+        spend = M.SpendContext(sha256_preimages=maps["sha256"], hash256_preimages=maps["hash256"],
+                               ripemd160_preimages=maps["ripemd160"], hash160_preimages=maps["hash160"],
+                               locktime=int(t[4]), sequence=int(t[5]), version=int(t[6]))
+        try:
+            w = n.satisfy(sigs, spend)
+        except BTClibValueError as e:
+            return "err " + ("none" if str(e).startswith("no satisfaction of") else
+                             "malleable" if str(e).startswith("no non-malleable") else "other")
+        except Exception as e:  # noqa: BLE001
+            return "err " + common.err_class(e)
+        return "ok " + (",".join(hx(x) for x in w) or "-")
     if op == "exec":
         # the line carries a witness the REAL engine accepted for this expression (stream `exec` is only fed from
         # accepted spends of the `spend` oracle): acceptance leaves exactly the true value
@@ -515,6 +534,8 @@ def run(ctx):
     spend_nodes = quorums + [n for n in s1_nodes if n in spend_nodes][:ctx.n(60, 1200)] + spend_nodes
     produced = 0
     solver_left = ctx.n(500, 20000)
+    sat_lines: list[str] = []
+    sat_cap = ctx.n(1500, 60000)
     exec_lines = []
     S1 = {"0", "1", "pk_k", "pk_h", "sha256", "hash256", "ripemd160", "hash160", "c:", "v:", "a:", "s:", "n:", "d:",
           "and_v", "and_b", "or_b", "or_c", "or_d", "or_i", "andor"}
@@ -525,6 +546,15 @@ def run(ctx):
             w = {"expr": text, "context": n.context, "avail": a}
             r = SP.spend_check(text, n.context, a)
             produced += bool(r.get("produced"))
+            if len(sat_lines) < sat_cap:
+                sm0 = SP._signatures(SP._prepare(text, n.context), n.context,
+                                     SP._tx(a["locktime"], a["sequence"], a["version"]), a)
+                used_d = {(f.fragment, f.data.hex()) for f in SP._tree_nodes(n) if f.fragment in HASHES}
+                pre = ",".join(f"{h}:{d}:{SP.PREIMAGES[SP.DIGEST[h].index(d)].hex()}" for h, d in sorted(used_d)
+                               if d in SP.DIGEST[h] and SP.DIGEST[h].index(d) in a["preimages"]) or "-"
+                sg = ",".join(f"{k.hex()}:{v.hex()}" for k, v in sorted(sm0.items())) or "-"
+                sat_lines.append(f"sat {n.context} {sg} {pre} {a['locktime']} {a['sequence']} {a['version']} "
+                                 + " ".join(tokens(n)))
             if in_s1 and r.get("produced") and r.get("engine_ok"):
                 # the model's evaluator (the semantics T3 is proved against) must accept what the real engine accepted
                 sm = SP._signatures(SP._prepare(text, n.context), n.context,
@@ -540,6 +570,7 @@ def run(ctx):
                 solver_left -= 1
                 ctx.check("solver", w, nontrivial=bool(r.get("produced")))
     ctx.stream("exec", exec_lines)
+    ctx.stream("sat", sat_lines, nontrivial=lambda line, out: out.startswith("ok"))
     ctx.note("T3/T4 are partial: covered_constructors = 0, 1, pk_k, pk_h, sha256, hash256, ripemd160, hash160, c:, v:, "
              "a:, s:, n:, d:, and_v, and_b, or_b, or_c, or_d, or_i, andor (Props.C15.type_soundness_partial / "
              "satisfaction_accepted_partial); not covered: j: older after multi multi_a thresh, the satisfier's choice and "
